@@ -12,6 +12,7 @@
 (* stops and probation expiry; the request queue; need.                     *)
 (***************************************************************************)
 EXTENDS Integers, Sequences, FiniteSets, TLC, Json, IOUtils
+SX == INSTANCE SequencesExt
 
 Place == ndJsonDeserialize("c14_place.ndjson")
 Live == ndJsonDeserialize("c14_live.ndjson")
@@ -100,15 +101,20 @@ LiveStep ==
                 \* placement: the granted pair must be a result of the documented algorithm on the ledger state
                 okm == {x \in DOMAIN hl : hl[x] = "ok"}
                 RS == [x \in DOMAIN q |-> q[x]]
+                \* (the walk of schedule() looks only at the keys at each position of the two sorted queues, so the
+                \* possible results are the requests and machines whose keys equal those at the stopping position)
+                rs == SX!SortSeq(SX!SetToSeq(DOMAIN q), LAMBDA a, b : ReqBefore(RS, a, b))
+                mo == SX!SortSeq(SX!SetToSeq(okm), LAMBDA a, b : (max[a] - load[a]) > (max[b] - load[b]))
+                kstar == LET RECURSIVE P(_)
+                             P(k) == IF k > Len(rs) \/ k > Len(mo) THEN 0
+                                     ELSE IF max[mo[k]] - load[mo[k]] = 0 THEN 0
+                                     ELSE IF q[rs[k]][2] <= max[mo[k]] - load[mo[k]] THEN k
+                                     ELSE P(k + 1)
+                         IN P(1)
                 placeOK == known =>
-                   \E rs \in {p \in Perms(DOMAIN q) : \A a, b \in DOMAIN p : a < b => ~ReqBefore(RS, p[b], p[a])},
-                      mo \in {p \in Perms(okm) : \A a, b \in DOMAIN p : a < b => (max[p[a]] - load[p[a]]) >= (max[p[b]] - load[p[b]])} :
-                        LET RECURSIVE P(_)
-                            P(k) == IF k > Len(rs) \/ k > Len(mo) THEN <<-1, -1>>
-                                    ELSE IF max[mo[k]] - load[mo[k]] = 0 THEN <<-1, -1>>
-                                    ELSE IF q[rs[k]][2] <= max[mo[k]] - load[mo[k]] THEN <<rs[k], mo[k]>>
-                                    ELSE P(k + 1)
-                        IN P(1) = <<ev.rid, m>>
+                   /\ kstar # 0
+                   /\ q[ev.rid] = q[rs[kstar]]
+                   /\ max[m] - load[m] = max[mo[kstar]] - load[mo[kstar]]
                 fails == (IF known THEN <<>> ELSE <<Fail(r, ev, "GrantOfKnownRequestAndMachine")>>)
                          \o (IF ~known \/ capOK THEN <<>> ELSE <<Fail(r, ev, "NeverOversubscribed")>>)
                          \o (IF ~known \/ healthy THEN <<>> ELSE <<Fail(r, ev, "NoWorkForProbationOrStopped")>>)
